@@ -66,6 +66,10 @@ def _both(a, b):
     return a & b
 
 
+def _not(x):
+    return (not x) if isinstance(x, bool) else ~x
+
+
 def _conc_bv(ctx, v, lo, hi):
     """fork a bounded symbolic unsigned value into its concrete values (binary splitting with
     unsigned comparisons); python ints pass through"""
@@ -164,7 +168,7 @@ def spec_declared(ctx, data):
         if p == "png_swapped":
             w, h = h, w
         if (w >= 1) & (w <= 0x7FFFFFFF) & (h >= 1) & (h <= 0x7FFFFFFF):
-            return ("png", w, h)
+            return ("png", w, h, "")
         return None
     if n >= 6 and _member(data[:6], (b"GIF87a", b"GIF89a")):
         # logical screen descriptor: width, height unsigned 16-bit little-endian at 6, 8
@@ -173,7 +177,7 @@ def spec_declared(ctx, data):
         w = _u(data, 6, 2, "little")
         h = _u(data, 8 if p != "gif_offset" else 7, 2, "little")
         if (w >= 1) & (h >= 1):
-            return ("gif", w, h)
+            return ("gif", w, h, "")
         return None
     if n >= 2 and data[:2] == b"BM":
         # BITMAPFILEHEADER (14 bytes) then the DIB header, whose first field is its size
@@ -184,12 +188,12 @@ def spec_declared(ctx, data):
             w, h = _sgn(data, 18, 4, "little"), _sgn(data, 22, 4, "little")
             if (w >= 1) & (h != 0) & (h > -0x80000000):
                 # negative height = top-down bitmap of |height| rows
-                return ("bmp", w, h if p == "bmp_height_signed" else S.sym_abs(h))
+                return ("bmp", w, h if p == "bmp_height_signed" else S.sym_abs(h), "")
             return None
         if ctx.params.get("bmp_core", True) and hs == BMP_CORE_SIZE:
             w, h = _u(data, 18, 2, "little"), _u(data, 20, 2, "little")
             if (w >= 1) & (h >= 1):
-                return ("bmp", w, h)
+                return ("bmp", w, h, "bmp-core-header")
         return None
     if n >= 4 and data[:2] == b"\xff\xd8":
         return _spec_jpeg(ctx, data)
@@ -207,7 +211,9 @@ def _spec_jpeg(ctx, data):
     max_seg = ctx.params.get("segments", 2)
     max_fill = ctx.params.get("fill", 0)
     sof = SOF + ((0xC4,) if p == "jpeg_c4_is_sof" else ())
+    exact = ctx.params.get("exact")
     pos = 2
+    any_fill = False
     for seg in range(max_seg + 1):
         ctx.assume(pos + 4 <= n)
         ctx.assume(data[pos] == 0xFF)
@@ -215,17 +221,22 @@ def _spec_jpeg(ctx, data):
         while fills < max_fill and pos + 5 <= n and data[pos + 1] == 0xFF:
             fills += 1
             pos += 1
+            any_fill = True
         m = data[pos + 1]
         ctx.assume(m != 0xFF)
         L = _u(data, pos + 2, 2, "big")
-        if _member(m, sof):
+        is_sof = _member(m, sof)
+        if exact is not None:
+            # partition of the input space by the number of segments before the frame header
+            ctx.assume(_not(is_sof) if seg < exact else is_sof)
+        if is_sof:
             # frame header: Lf = 8 + 3*Nf, Nf >= 1; the whole segment must be present
             ctx.assume(L >= 11)
             ctx.assume(L <= n - pos - 2)
             h = _u(data, pos + 5, 2, "big")
             w = _u(data, pos + (7 if p != "jpeg_plus2_slip" else 9), 2, "big")
             ctx.assume((w >= 1) & (h >= 1))      # Y = 0 means "defined by a DNL marker later"
-            return ("jpeg", w, h)
+            return ("jpeg", w, h, "jpeg-fill-bytes" if any_fill else "")
         # segments with a length field that may precede the frame header:
         # C4 DHT, C8 JPG, CC DAC, DB DQT, DC DNL, DD DRI, DE DHP, DF EXP, E0-EF APPn, F0-FD JPGn, FE COM
         ctx.assume((m == 0xC4) | (m == 0xC8) | (m == 0xCC) | ((m >= 0xDB) & (m <= 0xFE)))
@@ -318,15 +329,16 @@ def k1_sniffers(ctx):
     ctx.require(isinstance(dims, tuple) and len(dims) == 2, "sniffer-result-shape", got=repr(dims)[:60])
     if decl is None:
         return
-    kind, w, h = decl
+    kind, w, h, variant = decl
     if target == "util":
         ctx.require(det is not None and tuple(det) == (kind, CONTENT_TYPE[kind]),
                     "content-type-differs-from-signature", expected=kind, got=repr(det))
         if direct is not None:
             ctx.require(_both(_eq(direct[0], w), _eq(direct[1], h)),
-                        "declared-pixel-size-not-returned", kind=kind, via="get_jpeg_dimensions")
+                        "declared-pixel-size-not-returned", kind=kind, variant=variant,
+                        via="get_jpeg_dimensions")
     ctx.require(_both(_eq(dims[0], w), _eq(dims[1], h)), "declared-pixel-size-not-returned",
-                kind=kind, got=_show(dims), declared=_show((w, h)))
+                kind=kind, variant=variant, got=_show(dims), declared=_show((w, h)))
 
 
 def _show(t):
@@ -339,11 +351,11 @@ def _k1_parts(tier):
     for t in ("docx", "pptx", "xlsx", "util"):
         parts.append({"target": t, "fmt": "hdr", "n": nh})
         if tier == "quick":
-            parts.append({"target": t, "fmt": "jpeg", "n": 30, "segments": 2, "fill": 0})
+            parts += [{"target": t, "fmt": "jpeg", "n": 28, "segments": 2, "fill": 0, "exact": k} for k in (0, 1, 2)]
             parts.append({"target": t, "fmt": "jpeg", "n": 24, "segments": 1, "fill": 1})
         else:
-            parts.append({"target": t, "fmt": "jpeg", "n": 40, "segments": 3, "fill": 0})
-            parts.append({"target": t, "fmt": "jpeg", "n": 30, "segments": 2, "fill": 2})
+            parts += [{"target": t, "fmt": "jpeg", "n": 36, "segments": 3, "fill": 0, "exact": k} for k in (0, 1, 2, 3)]
+            parts += [{"target": t, "fmt": "jpeg", "n": 30, "segments": 2, "fill": 2, "exact": k} for k in (0, 1, 2)]
     parts.append({"target": "util", "fmt": "jpeg", "n": 24, "segments": 1, "fill": 0, "alias": True})
     return parts
 
@@ -444,6 +456,575 @@ def _k1_targets():
             m["util"].get_image_dimensions, m["util"].get_jpeg_dimensions]
 
 
+# ---------------------------------------------------------------------------------------
+# K2: relationship-target resolution vs OPC / RFC 3986 reference resolution
+# ---------------------------------------------------------------------------------------
+
+def _sx_concat(*parts):
+    """what an f-string without conversions/format specs computes, on str and CharStr alike"""
+    if not any(isinstance(p, S.CharStr) for p in parts):
+        return "".join(format(p, "") for p in parts)
+    out = S.CharStr("")
+    for p in parts:
+        out = out + (p if isinstance(p, (S.CharStr, str)) else format(p, ""))
+    return out
+
+
+def _sx_join(sep, items):
+    items = list(items)
+    if not any(isinstance(p, S.CharStr) for p in items):
+        return sep.join(items)
+    return S.CharStr(sep).join(items)
+
+
+_REWRITTEN = {}
+
+
+def _charstr_variant(fn):
+    """The function's own source text (read live), with the two constructs a CharStr cannot pass
+    through rewritten mechanically: f"...{x}..." -> _sx_concat(...), "<sep>".join(xs) -> _sx_join.
+    Compiled in the function's module globals.  Used in symbolic runs only; replay calls the real
+    function object, and K2s checks variant == original on concrete strings."""
+    import ast
+    import inspect
+    import textwrap
+    if fn in _REWRITTEN:
+        return _REWRITTEN[fn]
+
+    class RW(ast.NodeTransformer):
+        def visit_JoinedStr(self, node):
+            self.generic_visit(node)
+            args = []
+            for v in node.values:
+                if isinstance(v, ast.Constant):
+                    args.append(v)
+                elif isinstance(v, ast.FormattedValue) and v.conversion == -1 and v.format_spec is None:
+                    args.append(v.value)
+                else:
+                    raise S.Unsupported("f-string with conversion/format spec")
+            return ast.copy_location(ast.Call(func=ast.Name("_sx_concat", ast.Load()), args=args, keywords=[]), node)
+
+        def visit_Call(self, node):
+            self.generic_visit(node)
+            f = node.func
+            if isinstance(f, ast.Attribute) and f.attr == "join" and isinstance(f.value, ast.Constant) \
+                    and isinstance(f.value.value, str) and len(node.args) == 1 and not node.keywords:
+                return ast.copy_location(ast.Call(func=ast.Name("_sx_join", ast.Load()),
+                                                  args=[f.value, node.args[0]], keywords=[]), node)
+            return node
+
+    src = textwrap.dedent(inspect.getsource(fn))
+    tree = ast.parse(src)
+    fd = tree.body[0]
+    fd.decorator_list = []
+    fd.returns = None
+    for a in fd.args.args + fd.args.kwonlyargs:
+        a.annotation = None
+    tree = ast.fix_missing_locations(RW().visit(tree))
+    g = dict(fn.__globals__)
+    g["_sx_concat"], g["_sx_join"] = _sx_concat, _sx_join
+    code = compile(tree, inspect.getsourcefile(fn) or "<variant>", "exec")
+    exec(code, g)
+    out = g[fd.name]
+    _REWRITTEN[fn] = out
+    return out
+
+
+def _plain(seg):
+    """an ordinary part-name segment: non-empty, neither starting nor ending with a dot"""
+    return len(seg) > 0 and seg[0] != "." and seg[-1] != "."
+
+
+def _join_segs(segs):
+    return _sx_join("/", segs)
+
+
+def _ref_resolve(ctx, base_dir, target):
+    """ECMA-376-2 (OPC) 8.3 / RFC 3986 5.2 on the three reference shapes the property names.
+    base_dir: directory of the source part as a ZIP name without leading/trailing slash ("" = root).
+    Returns (shape, zip member name); shapes outside the three are assumed away."""
+    segs = target.split("/")
+    stack = [s for s in base_dir.split("/") if s]
+    if len(segs) >= 2 and len(segs[0]) == 0:
+        # absolute: "/" + plain segments, relative to the package root
+        for s in segs[1:]:
+            ctx.assume(_plain(s))
+        out = list(segs[1:])
+        if ctx.perturb == "absolute_under_base":
+            out = stack + out
+        return "absolute", _join_segs(out)
+    k = 0
+    while k < len(segs) - 1 and segs[k] == "..":
+        k += 1
+    for s in segs[k:]:
+        ctx.assume(_plain(s))
+    if k == 0:
+        return "relative", _join_segs(stack + list(segs))
+    ctx.assume(k <= len(stack))          # may not climb above the package root
+    if ctx.perturb == "dotdot_ignored":
+        return "parent-relative", _join_segs(stack + list(segs[k:]))
+    return "parent-relative", _join_segs(stack[:len(stack) - k] + list(segs[k:]))
+
+
+class _DocxCtxStub:
+    """what _extract_images_from_context needs from _DocxContext: one image relationship whose
+    target is the symbolic string; records the member name the code asks for"""
+    PNG = PNG_SIG + b"\x00\x00\x00\x0dIHDR\x00\x00\x00\x02\x00\x00\x00\x03\x08\x02\x00\x00\x00"
+
+    def __init__(self, target):
+        self.relationships = {"rId1": {
+            "type": "http://schemas.openxmlformats.org/officeDocument/2006/relationships/image",
+            "target": target, "target_mode": ""}}
+        self.document_body = None
+        self.asked = []
+
+    def get_image_data(self, path):
+        self.asked.append(path)
+        return self.PNG
+
+
+K2_FUNCS = ("pptx", "docx", "xlsx-drawing", "xlsx-image", "epub")
+
+
+def _k2_resolve(ctx, fn_name, base_dir, target):
+    """the member name the repository code computes for (source directory, target)"""
+    m = _mods()
+    pick = (lambda f: f) if ctx.concrete else _charstr_variant
+    if fn_name == "pptx":
+        return pick(m["pptx"]._normalize_relative_path)(base_dir, target)
+    if fn_name == "xlsx-drawing":
+        return pick(m["xlsx"]._resolve_drawing_path)(target)
+    if fn_name == "xlsx-image":
+        return pick(m["xlsx"]._resolve_image_path)(target)
+    if fn_name == "epub":
+        from sharepoint2text.parsing.extractors import epub_extractor as ep
+
+        class FakeEpub:
+            _opf_dir = base_dir + "/" if base_dir else ""
+        return pick(ep._EpubContext.resolve_href)(FakeEpub(), target)
+    if fn_name == "docx":
+        d = m["docx"]
+        stub = _DocxCtxStub(target)
+        fnv = pick(d._extract_images_from_context)
+        with ctx.shadow(fnv.__globals__, _CONTENT_TYPE_MAP=S.SymMap(d._CONTENT_TYPE_MAP)):
+            imgs = fnv(stub)
+        ctx.require(len(stub.asked) == 1 and len(imgs) == 1 and imgs[0].error is None,
+                    "docx-image-relationship-not-read", asked=len(stub.asked))
+        return stub.asked[0]
+    raise KeyError(fn_name)
+
+
+_K2_BASES = {"pptx": ["ppt/slides", "p"], "docx": ["word"], "xlsx-drawing": ["xl/worksheets"],
+             "xlsx-image": ["xl/drawings"], "epub": ["OEBPS", ""]}
+
+
+def k2_targets(ctx):
+    fn_name, n = ctx.params["fn"], ctx.params["len"]
+    bases = _K2_BASES[fn_name]
+    base_dir = bases[ctx.choice("base", len(bases))]
+    # alphabet '.', '/', '0': every combination of dot segments, separators and name characters
+    target = ctx.fresh_chars("target", n, 46, 48)
+    shape, exp = _ref_resolve(ctx, base_dir, target)
+    try:
+        got = _k2_resolve(ctx, fn_name, base_dir, target)
+    except Exception as e:
+        ctx.fail("resolution-raised", exc=type(e).__name__, msg=str(e)[:100], shape=shape)
+    ctx.require(got == exp, "target-resolved-to-wrong-member", shape=shape, fn=fn_name, base=base_dir,
+                got=str(got), expected=str(exp))
+
+
+def _k2_parts(tier):
+    top = 7 if tier == "quick" else 10
+    return [{"fn": f, "len": n} for f in K2_FUNCS for n in range(1, top + 1)]
+
+
+def k2_variant_check(ctx):
+    """the CharStr variants compute the same as the original functions on concrete strings"""
+    m = _mods()
+    from sharepoint2text.parsing.extractors import epub_extractor as ep
+    fns = [m["pptx"]._normalize_relative_path, m["xlsx"]._resolve_drawing_path, m["xlsx"]._resolve_image_path]
+    vocab = ["", "a.png", "../media/a.png", "/ppt/media/a.png", "../../a", "a/../b", "./a", "x/y/z.png", "..", "/",
+             "//a", "a//b", "../a/../b", "media/../a.png", "/a/../b"]
+    t = vocab[ctx.choice("target", len(vocab))]
+    f = fns[ctx.choice("fn", len(fns))]
+    v = _charstr_variant(f)
+    args = ("ppt/slides", t) if f is fns[0] else (t,)
+    a, b = f(*args), v(*args)
+    if ctx.perturb == "variant_differs":
+        b = b + "x"
+    ctx.require(a == b and type(a) is type(b), "charstr-variant-differs", fn=f.__name__, target=t, a=a, b=str(b))
+    # and on a CharStr holding the same characters
+    c = v(*[S.CharStr(x) if x is t else x for x in args]) if not ctx.concrete else a
+    ctx.require(str(c) == a, "charstr-variant-differs", fn=f.__name__, target=t, a=a, b=str(c))
+
+
+def _k2_targets_fns():
+    m = _mods()
+    from sharepoint2text.parsing.extractors import epub_extractor as ep
+    return [m["pptx"]._normalize_relative_path, m["xlsx"]._resolve_drawing_path, m["xlsx"]._resolve_image_path,
+            m["docx"]._extract_images_from_context, ep._EpubContext.resolve_href]
+
+
+# ---------------------------------------------------------------------------------------
+# K3: numbering, unit attribution, unit views - generated packages through the public readers
+# ---------------------------------------------------------------------------------------
+import zipfile
+import zlib
+
+
+def make_png(w, h):
+    def ch(t, d):
+        return _real_struct.pack(">I", len(d)) + t + d + _real_struct.pack(">I", zlib.crc32(t + d) & 0xFFFFFFFF)
+    raw = b"".join(b"\x00" + b"\x10\x20\x30" * w for _ in range(h))
+    return (b"\x89PNG\r\n\x1a\n" + ch(b"IHDR", _real_struct.pack(">IIBBBBB", w, h, 8, 2, 0, 0, 0))
+            + ch(b"IDAT", zlib.compress(raw)) + ch(b"IEND", b""))
+
+def make_gif(w, h):
+    return b"GIF89a" + _real_struct.pack("<HH", w, h) + b"\x80\x00\x00" + b"\x00\x00\x00\xff\xff\xff" + \
+        b"\x2c\x00\x00\x00\x00" + _real_struct.pack("<HH", w, h) + b"\x00\x02\x02\x4c\x01\x00\x3b"
+
+def make_bmp(w, h):
+    row = (b"\x10\x20\x30" * w + b"\x00" * 3)[: (3 * w + 3) // 4 * 4]
+    px = row * h
+    return b"BM" + _real_struct.pack("<IHHI", 54 + len(px), 0, 0, 54) + \
+        _real_struct.pack("<IiiHHIIiiII", 40, w, h, 1, 24, 0, len(px), 2835, 2835, 0, 0) + px
+
+def make_jpeg(w, h):
+    # SOI, APP0/JFIF, DQT, SOF0 (1 component), then scan bytes (never decoded by the library)
+    app0 = b"\xff\xe0" + _real_struct.pack(">H", 16) + b"JFIF\x00\x01\x01\x00\x00\x01\x00\x01\x00\x00"
+    dqt = b"\xff\xdb" + _real_struct.pack(">H", 67) + b"\x00" + bytes([16] * 64)
+    sof = b"\xff\xc0" + _real_struct.pack(">HBHHB", 11, 8, h, w, 1) + b"\x01\x11\x00"
+    sos = b"\xff\xda" + _real_struct.pack(">H", 8) + b"\x01\x01\x00\x00\x3f\x00" + b"\x12\x34\x56"
+    return b"\xff\xd8" + app0 + dqt + sof + sos + b"\xff\xd9"
+
+KINDS = [("png", "image/png", make_png), ("jpeg", "image/jpeg", make_jpeg), ("gif", "image/gif", make_gif),
+         ("bmp", "image/bmp", make_bmp)]
+
+RELNS = "http://schemas.openxmlformats.org/package/2006/relationships"
+R = "http://schemas.openxmlformats.org/officeDocument/2006/relationships"
+A = "http://schemas.openxmlformats.org/drawingml/2006/main"
+
+def rels_xml(items):
+    return ('<?xml version="1.0" encoding="UTF-8"?><Relationships xmlns="%s">%s</Relationships>' % (
+        RELNS, "".join('<Relationship Id="%s" Type="%s" Target="%s"/>' % i for i in items)))
+
+def content_types(overrides):
+    return ('<?xml version="1.0" encoding="UTF-8"?><Types xmlns="http://schemas.openxmlformats.org/package/2006/content-types">'
+            '<Default Extension="rels" ContentType="application/vnd.openxmlformats-package.relationships+xml"/>'
+            '<Default Extension="xml" ContentType="application/xml"/><Default Extension="png" ContentType="image/png"/>'
+            '<Default Extension="jpeg" ContentType="image/jpeg"/><Default Extension="gif" ContentType="image/gif"/>'
+            '<Default Extension="bmp" ContentType="image/bmp"/>%s</Types>' % "".join(
+                '<Override PartName="%s" ContentType="%s"/>' % o for o in overrides))
+
+def _zip(members):
+    b = io.BytesIO()
+    with zipfile.ZipFile(b, "w", zipfile.ZIP_DEFLATED) as z:
+        for name, data in members:
+            z.writestr(name, data)
+    b.seek(0)
+    return b
+
+# model: units = [[img, ...], ...]; img = dict(ext, data, present)
+
+_PPTX_TABLE = ('<p:graphicFrame><p:nvGraphicFramePr><p:cNvPr id="90" name="T"/><p:cNvGraphicFramePr/><p:nvPr/>'
+               '</p:nvGraphicFramePr><p:xfrm><a:off x="0" y="900000"/><a:ext cx="10" cy="10"/></p:xfrm><a:graphic>'
+               '<a:graphicData uri="http://schemas.openxmlformats.org/drawingml/2006/table"><a:tbl><a:tr h="1"><a:tc>'
+               '<a:txBody><a:bodyPr/><a:p><a:r><a:t>cell of slide %d</a:t></a:r></a:p></a:txBody></a:tc></a:tr></a:tbl>'
+               '</a:graphicData></a:graphic></p:graphicFrame>')
+
+
+def write_pptx(units, reverse_rels=False):
+    P = "http://schemas.openxmlformats.org/presentationml/2006/main"
+    mem = [("[Content_Types].xml", content_types(
+        [("/ppt/presentation.xml", "application/vnd.openxmlformats-officedocument.presentationml.presentation.main+xml")] +
+        [("/ppt/slides/slide%d.xml" % (i + 1), "application/vnd.openxmlformats-officedocument.presentationml.slide+xml")
+         for i in range(len(units))])),
+        ("_rels/.rels", rels_xml([("rId1", R + "/officeDocument", "ppt/presentation.xml")]))]
+    prs_rels = [("rId%d" % (i + 1), R + "/slide", "slides/slide%d.xml" % (i + 1)) for i in range(len(units))]
+    mem.append(("ppt/_rels/presentation.xml.rels", rels_xml(prs_rels[::-1] if reverse_rels else prs_rels)))
+    mem.append(("ppt/presentation.xml",
+                '<?xml version="1.0" encoding="UTF-8"?><p:presentation xmlns:p="%s" xmlns:r="%s"><p:sldIdLst>%s</p:sldIdLst></p:presentation>' % (
+                    P, R, "".join('<p:sldId id="%d" r:id="rId%d"/>' % (256 + i, i + 1) for i in range(len(units))))))
+    n = 0
+    for si, imgs in enumerate(units):
+        pics, rl = [], []
+        for k, im in enumerate(imgs):
+            n += 1
+            rid = "rId%d" % (k + 1)
+            rl.append((rid, R + "/image", "../media/image%d.%s" % (n, im["ext"])))
+            pics.append('<p:pic><p:nvPicPr><p:cNvPr id="%d" name="Picture %d"/><p:cNvPicPr/><p:nvPr/></p:nvPicPr>'
+                        '<p:blipFill><a:blip r:embed="%s"/></p:blipFill><p:spPr><a:xfrm><a:off x="0" y="%d"/>'
+                        '<a:ext cx="952500" cy="952500"/></a:xfrm></p:spPr></p:pic>' % (k + 2, k + 1, rid, 1000 * (k + 1)))
+            if im["present"]:
+                mem.append(("ppt/media/image%d.%s" % (n, im["ext"]), im["data"]))
+        mem.append(("ppt/slides/slide%d.xml" % (si + 1),
+                    '<?xml version="1.0" encoding="UTF-8"?><p:sld xmlns:p="%s" xmlns:a="%s" xmlns:r="%s"><p:cSld><p:spTree>'
+                    '<p:nvGrpSpPr><p:cNvPr id="1" name=""/><p:cNvGrpSpPr/><p:nvPr/></p:nvGrpSpPr><p:grpSpPr/>%s</p:spTree></p:cSld></p:sld>' % (
+                        P, A, R, "".join(pics) + _PPTX_TABLE % (si + 1))))
+        mem.append(("ppt/slides/_rels/slide%d.xml.rels" % (si + 1), rels_xml(rl[::-1] if reverse_rels else rl)))
+    return _zip(mem)
+
+def write_docx(units, reverse_rels=False):
+    W = "http://schemas.openxmlformats.org/wordprocessingml/2006/main"
+    imgs = units[0]
+    mem = [("[Content_Types].xml", content_types(
+        [("/word/document.xml", "application/vnd.openxmlformats-officedocument.wordprocessingml.document.main+xml")])),
+        ("_rels/.rels", rels_xml([("rId1", R + "/officeDocument", "word/document.xml")]))]
+    paras, rl = ['<w:p><w:r><w:t>intro</w:t></w:r></w:p>'], []
+    for k, im in enumerate(imgs):
+        rid = "rId%d" % (k + 10)
+        rl.append((rid, R + "/image", "media/image%d.%s" % (k + 1, im["ext"])))
+        paras.append('<w:p><w:r><w:drawing><wp:inline><a:graphic><a:graphicData><pic:pic><pic:nvPicPr><pic:cNvPr id="%d" name="Picture %d"/>'
+                     '</pic:nvPicPr><pic:blipFill><a:blip r:embed="%s"/></pic:blipFill></pic:pic></a:graphicData></a:graphic>'
+                     '</wp:inline></w:drawing></w:r></w:p>' % (k + 1, k + 1, rid))
+        if im["present"]:
+            mem.append(("word/media/image%d.%s" % (k + 1, im["ext"]), im["data"]))
+    mem.append(("word/document.xml",
+                '<?xml version="1.0" encoding="UTF-8"?><w:document xmlns:w="%s" xmlns:wp="http://schemas.openxmlformats.org/drawingml/2006/wordprocessingDrawing" '
+                'xmlns:a="%s" xmlns:pic="http://schemas.openxmlformats.org/drawingml/2006/picture" xmlns:r="%s"><w:body>%s</w:body></w:document>' % (
+                    W, A, R, "".join(paras))))
+    mem.append(("word/_rels/document.xml.rels", rels_xml(rl[::-1] if reverse_rels else rl)))
+    return _zip(mem)
+
+def write_epub(units, reverse_rels=False):
+    imgs = [im for u in units for im in u]
+    items = ['<item id="ch%d" href="ch%d.xhtml" media-type="application/xhtml+xml"/>' % (i + 1, i + 1) for i in range(len(units))]
+    img_items = []
+    mem = [("mimetype", "application/epub+zip"),
+           ("META-INF/container.xml", '<?xml version="1.0"?><container version="1.0" xmlns="urn:oasis:names:tc:opendocument:xmlns:container">'
+            '<rootfiles><rootfile full-path="OEBPS/content.opf" media-type="application/oebps-package+xml"/></rootfiles></container>')]
+    n = 0
+    for ui, u in enumerate(units):
+        body = ["<p>chapter %d</p>" % (ui + 1)]
+        for im in u:
+            n += 1
+            img_items.append('<item id="img%d" href="images/i%d.%s" media-type="%s"/>' % (n, n, im["ext"], im["ctype"]))
+            body.append('<p><img src="images/i%d.%s" alt="x"/></p>' % (n, im["ext"]))
+            if im["present"]:
+                mem.append(("OEBPS/images/i%d.%s" % (n, im["ext"]), im["data"]))
+        mem.append(("OEBPS/ch%d.xhtml" % (ui + 1), '<?xml version="1.0" encoding="UTF-8"?><html xmlns="http://www.w3.org/1999/xhtml"><head><title>c%d</title></head><body>%s</body></html>' % (ui + 1, "".join(body))))
+    if reverse_rels:
+        img_items = img_items[::-1]
+    mem.append(("OEBPS/content.opf", '<?xml version="1.0" encoding="UTF-8"?><package xmlns="http://www.idpf.org/2007/opf" version="3.0" unique-identifier="id">'
+                '<metadata xmlns:dc="http://purl.org/dc/elements/1.1/"><dc:title>t</dc:title><dc:identifier id="id">x</dc:identifier><dc:language>en</dc:language></metadata>'
+                '<manifest>%s</manifest><spine>%s</spine></package>' % ("".join(items + img_items), "".join('<itemref idref="ch%d"/>' % (i + 1) for i in range(len(units))))))
+    return _zip(mem)
+
+def write_odp(units, reverse_rels=False):
+    NS = ('xmlns:office="urn:oasis:names:tc:opendocument:xmlns:office:1.0" xmlns:draw="urn:oasis:names:tc:opendocument:xmlns:drawing:1.0" '
+          'xmlns:text="urn:oasis:names:tc:opendocument:xmlns:text:1.0" xmlns:xlink="http://www.w3.org/1999/xlink" '
+          'xmlns:svg="urn:oasis:names:tc:opendocument:xmlns:svg-compatible:1.0" xmlns:presentation="urn:oasis:names:tc:opendocument:xmlns:presentation:1.0" '
+          'xmlns:table="urn:oasis:names:tc:opendocument:xmlns:table:1.0"')
+    mem = [("mimetype", "application/vnd.oasis.opendocument.presentation")]
+    man = ['<manifest:file-entry manifest:full-path="/" manifest:media-type="application/vnd.oasis.opendocument.presentation"/>',
+           '<manifest:file-entry manifest:full-path="content.xml" manifest:media-type="text/xml"/>']
+    pages, n = [], 0
+    for ui, u in enumerate(units):
+        frames = []
+        for im in u:
+            n += 1
+            href = "Pictures/i%d.%s" % (n, im["ext"])
+            frames.append('<draw:frame draw:name="f%d" svg:x="1cm" svg:y="%dcm"><draw:image xlink:href="%s" xlink:type="simple"/></draw:frame>' % (n, n, href))
+            if im["present"]:
+                mem.append((href, im["data"]))
+                man.append('<manifest:file-entry manifest:full-path="%s" manifest:media-type="%s"/>' % (href, im["ctype"]))
+        pages.append('<draw:page draw:name="page%d">%s</draw:page>' % (ui + 1, "".join(frames)))
+    mem.append(("content.xml", '<?xml version="1.0" encoding="UTF-8"?><office:document-content %s office:version="1.2"><office:body><office:presentation>%s</office:presentation></office:body></office:document-content>' % (NS, "".join(pages))))
+    mem.append(("META-INF/manifest.xml", '<?xml version="1.0" encoding="UTF-8"?><manifest:manifest xmlns:manifest="urn:oasis:names:tc:opendocument:xmlns:manifest:1.0">%s</manifest:manifest>' % "".join(man)))
+    return _zip(mem)
+
+
+def _k3_model(ctx, n_units, max_per_unit):
+    """symbolic structure -> units = [[image dict]]: count per unit, present/missing per image,
+    kind and pixel size by position (distinct bytes per image)"""
+    units, n = [], 0
+    for u in range(n_units):
+        k = ctx.choice("images_on_unit%d" % u, max_per_unit + 1)
+        row = []
+        for j in range(k):
+            present = not ctx.flag("missing%d_%d" % (u, j))
+            ext, ctype, mk = KINDS[n % 4]
+            n += 1
+            size = (3 + n, 5 + 2 * n)
+            row.append(dict(ext=ext, ctype=ctype, data=mk(*size), present=present, size=size))
+        units.append(row)
+    return units
+
+
+def _k3_formats():
+    from sharepoint2text.parsing.extractors.ms_modern.pptx_extractor import read_pptx
+    from sharepoint2text.parsing.extractors.ms_modern.docx_extractor import read_docx
+    from sharepoint2text.parsing.extractors.epub_extractor import read_epub
+    from sharepoint2text.parsing.extractors.open_office.odp_extractor import read_odp
+    # name -> (writer, reader, units are pages/slides/sheets, max units)
+    return {"pptx": (write_pptx, read_pptx, True, 2), "docx": (write_docx, read_docx, False, 1),
+            "epub": (write_epub, read_epub, False, 2), "odp": (write_odp, read_odp, True, 2)}
+
+
+def _read_fault(real, fail_at):
+    """ZipContext.read_bytes stand-in (a plain function, so it binds like the method it replaces): the
+    k-th read of an image member raises"""
+    count = [0]
+
+    def read_bytes(self, path):
+        if path.rsplit(".", 1)[-1].lower() in ("png", "jpeg", "gif", "bmp"):
+            count[0] += 1
+            if count[0] == fail_at:
+                raise OSError("injected read failure")
+        return real(self, path)
+    return read_bytes
+
+
+def k3_packages(ctx):
+    fmt = ctx.params["format"]
+    writer, reader, unit_format, max_units = _k3_formats()[fmt]
+    n_units = 1 + ctx.choice("extra_units", max_units)
+    units = _k3_model(ctx, n_units, ctx.params["per_unit"])
+    reverse = ctx.flag("relationship_order_reversed")
+    flat = [im for u in units for im in u if im["present"]]
+    fail_at = 0
+    if ctx.params.get("faults") and flat:
+        fail_at = ctx.choice("read_failure_at", len(flat) + 1)       # 0 = no failure
+    blob = writer(units, reverse)
+    from sharepoint2text.parsing.extractors.util import zip_context as zcm
+    try:
+        if fail_at:
+            with ctx.stub(zcm.ZipContext, read_bytes=_read_fault(zcm.ZipContext.read_bytes, fail_at)):
+                content = next(iter(reader(blob, "x." + fmt)))
+        else:
+            content = next(iter(reader(blob, "x." + fmt)))
+    except Exception as e:
+        ctx.fail("reader-raised", exc=type(e).__name__, msg=str(e)[:120])
+    imgs = list(content.iterate_images())
+    got = [(i.get_bytes().read(), i.get_content_type(), dict(i.get_metadata())) for i in imgs]
+    index_of = {im["data"]: k for k, im in enumerate(flat)}
+    shape = {"units": [len(u) for u in units], "present": [[int(im["present"]) for im in u] for u in units],
+             "reversed": reverse, "fail_at": fail_at}
+    numbers_all = [m["image_number"] for _, _, m in got]
+    if fail_at:
+        # records without bytes are error placeholders for the unreadable member: they may be returned
+        # (and then count in the numbering) but carry no image
+        got = [g for g in got if g[0]]
+    # no image the document does not contain; bit-exact bytes
+    ctx.require(all(b in index_of for b, _, _ in got), "returned-bytes-not-in-document", **shape)
+    seq = [index_of[b] for b, _, _ in got]
+    numbers = [m["image_number"] for _, _, m in got]
+    want_numbers = list(range(1, len(got) + 1))
+    if ctx.perturb == "numbers_from_zero":
+        want_numbers = list(range(len(got)))
+    if fail_at:
+        # with a failing media read the surviving images keep document order and gap-free numbers
+        ctx.require(seq == sorted(seq) and len(set(seq)) == len(seq), "order-differs-from-document-order",
+                    got=seq, **shape)
+        want_all = list(range(1, len(numbers_all) + 1)) if ctx.perturb != "numbers_from_zero" else []
+        ctx.require(numbers_all == want_all, "numbers-not-1..n-after-read-failure", numbers=numbers_all, **shape)
+        ctx.require(len(got) >= len(flat) - 1, "image-lost-or-duplicated", got=seq, **shape)
+        return
+    ctx.require(sorted(seq) == list(range(len(flat))), "image-lost-or-duplicated", got=seq, **shape)
+    ctx.require(seq == list(range(len(flat))), "order-differs-from-document-order", got=seq, **shape)
+    for k, (b, ctype, meta) in enumerate(got):
+        ctx.require(ctype == flat[k]["ctype"] and meta["content_type"] == flat[k]["ctype"], "content-type-differs",
+                    expected=flat[k]["ctype"], got=ctype, **shape)
+    # unit attribution and the two views
+    unit_of = {}
+    for ui, u in enumerate(units):
+        for im in u:
+            unit_of[im["data"]] = ui + 1
+    ulist = list(content.iterate_units())
+    via_units = [i.get_bytes().read() for u in ulist for i in u.get_images()]
+    ctx.require(all(b in [g[0] for g in got] for b in via_units), "unit-image-not-in-document-iterator", **shape)
+    doc_tables = [t.get_table() for t in content.iterate_tables()]
+    unit_tables = [t.get_table() for u in ulist for t in u.get_tables()]
+    ctx.require(all(t in doc_tables for t in unit_tables), "unit-table-not-in-document-iterator", **shape)
+    if unit_format:
+        ctx.require(len(ulist) == n_units, "unit-count-differs", got=len(ulist), **shape)
+        ctx.require(via_units == [g[0] for g in got], "views-differ", what="images", **shape)
+        ctx.require(unit_tables == doc_tables, "views-differ", what="tables", **shape)
+        if fmt == "pptx":
+            ctx.require(doc_tables == [[["cell of slide %d" % (k + 1)]] for k in range(n_units)], "table-lost",
+                        got=repr(doc_tables)[:120], **shape)
+        for ui, u in enumerate(ulist):
+            mine = [i.get_bytes().read() for i in u.get_images()]
+            ctx.require(all(unit_of[b] == ui + 1 for b in mine), "image-on-wrong-unit", unit=ui + 1, **shape)
+        for b, _, meta in got:
+            ctx.require(meta["unit_number"] in (None, unit_of[b]), "image-on-wrong-unit",
+                        unit_number=meta["unit_number"], expected=unit_of[b], **shape)
+    # last, so that a known deviation here does not hide the checks above
+    ctx.require(numbers == want_numbers, "numbers-not-1..n", numbers=numbers, **shape)
+    for k, (b, ctype, meta) in enumerate(got):
+        im = flat[k]
+        want = im["size"] if ctx.perturb != "size_swapped" else im["size"][::-1]
+        ctx.require((meta["width"], meta["height"]) == want, "pixel-size-not-reported",
+                    expected=list(im["size"]), got=[meta["width"], meta["height"]], kind=im["ext"], **shape)
+
+
+def _k3_parts(tier):
+    per = 2 if tier == "quick" else 3
+    parts = [{"format": f, "per_unit": per} for f in ("pptx", "docx", "epub", "odp")]
+    parts += [{"format": f, "per_unit": per, "faults": True} for f in ("pptx", "epub", "odp")]
+    return parts
+
+
+# ---------------------------------------------------------------------------------------
+# K3v: unit views vs document iterators on content instances
+# ---------------------------------------------------------------------------------------
+
+def k3_views(ctx):
+    from sharepoint2text.parsing.extractors import data_types as dt
+    kind = ctx.params["kind"]
+    n_units = ctx.choice("units", 3)
+    counter = [0]
+
+    def table():
+        rows = ctx.choice("rows", 3)
+        counter[0] += 1
+        return [["r%d c%d t%d" % (r, c, counter[0]) for c in range(2)] for r in range(rows)]
+
+    def images(make):
+        k = ctx.choice("images", 3)
+        out = []
+        for _ in range(k):
+            counter[0] += 1
+            out.append(make(counter[0]))
+        return out
+
+    blob = lambda n: PNG_SIG + bytes([n])
+    units = []
+    for u in range(n_units):
+        if kind == "pdf":
+            units.append(dt.PdfPage(text="t", images=images(lambda n: dt.PdfImage(index=n, data=blob(n), unit_name=u + 1)),
+                                    tables=[table() for _ in range(ctx.choice("tables", 3))]))
+        elif kind == "pptx":
+            units.append(dt.PptxSlide(slide_number=u + 1, images=images(lambda n: dt.PptxImage(image_index=n, blob=blob(n), slide_number=u + 1)),
+                                      tables=[table() for _ in range(ctx.choice("tables", 3))]))
+        elif kind == "odp":
+            units.append(dt.OdpSlide(slide_number=u + 1, images=images(lambda n: dt.OpenDocumentImage(image_index=n, data=io.BytesIO(blob(n)), unit_name=u + 1)),
+                                     tables=[table() for _ in range(ctx.choice("tables", 3))]))
+        elif kind == "xlsx":
+            units.append(dt.XlsxSheet(name="s%d" % u, data=table(), text="t",
+                                      images=images(lambda n: dt.XlsxImage(image_index=n, sheet_index=u, data=io.BytesIO(blob(n))))))
+        elif kind == "ods":
+            units.append(dt.OdsSheet(name="s%d" % u, data=table(), text="t",
+                                     images=images(lambda n: dt.OpenDocumentImage(image_index=n, data=io.BytesIO(blob(n)), unit_name=u + 1))))
+    content = {"pdf": lambda: dt.PdfContent(pages=units), "pptx": lambda: dt.PptxContent(slides=units),
+               "odp": lambda: dt.OdpContent(slides=units), "xlsx": lambda: dt.XlsxContent(sheets=units),
+               "ods": lambda: dt.OdsContent(sheets=units)}[kind]()
+    doc_imgs = [id(i) for i in content.iterate_images()]
+    doc_tabs = [t.get_table() for t in content.iterate_tables()]
+    ulist = list(content.iterate_units())
+    unit_imgs = [id(i) for u in ulist for i in u.get_images()]
+    unit_tabs = [t.get_table() for u in ulist for t in u.get_tables()]
+    if ctx.perturb == "drop_last_unit_image" and unit_imgs:
+        unit_imgs = unit_imgs[:-1]
+    shape = {"kind": kind, "units": n_units, "doc_tables": len(doc_tabs), "unit_tables": len(unit_tabs)}
+    ctx.require(all(i in doc_imgs for i in unit_imgs), "unit-image-not-in-document-iterator", **shape)
+    ctx.require(all(t in doc_tabs for t in unit_tabs), "unit-table-not-in-document-iterator", **shape)
+    ctx.require(unit_imgs == doc_imgs, "views-differ", what="images", **shape)
+    empty_only = [t for t in doc_tabs if t] == unit_tabs
+    ctx.require(unit_tabs == doc_tabs, "views-differ", what="tables",
+                variant="empty-sheet-table" if empty_only else "", **shape)
+
+
 KERNELS = [
     Kernel("K1", "dimension sniffers return the pixel size the file declares (PNG IHDR, GIF LSD, BMP DIB header, "
                  "JPEG first SOFn reached by segment lengths) and the matching content type",
@@ -475,6 +1056,50 @@ KERNELS = [
            k1_struct_shadow, targets=lambda: [], core=False,
            perturb=["unsigned_everywhere"],
            symbolic=["buffer bytes"], choices=["format", "buffer length", "offset"]),
+    Kernel("K2", "relationship targets (relative, parent-relative, absolute) resolve to the OPC/RFC 3986 member name: "
+                 "pptx._normalize_relative_path, docx 'word/'+target (through _extract_images_from_context), "
+                 "xlsx._resolve_drawing_path/_resolve_image_path, epub resolve_href",
+           k2_targets, targets=_k2_targets_fns, parts=_k2_parts,
+           perturb=[("absolute_under_base", {"fn": "xlsx-drawing", "len": 4}),
+                    ("dotdot_ignored", {"fn": "pptx", "len": 4})],
+           symbolic=["every character of the Target attribute over the alphabet {'.', '/', '0'} (all strings of "
+                     "length 1..7, thorough 1..10)"],
+           choices=["directory of the source part"],
+           stubs=["docx: _DocxContext -> stub with one image relationship (symbolic target) recording the member "
+                  "name asked from get_image_data"],
+           assumptions=["target shapes demanded = the three the property names: plain segments; one or more leading "
+                        "'..' then plain segments (not above the package root); '/' + plain segments.  Plain segment: "
+                        "non-empty, not starting or ending with '.'",
+                        "symbolic runs execute the functions' own source with f-strings and '<sep>'.join rewritten to "
+                        "CharStr-aware helpers (K2s: variant == original); replay runs the original function objects"],
+           outside=["targets with '.' segments, inner '..', empty segments, percent-encoding; ODF xlink:href (used "
+                    "verbatim as member name); pptx slide-part targets in _compute_slide_order"],
+           timeout={"quick": 100, "thorough": 1100}, max_depth=600),
+    Kernel("K2s", "CharStr variants of the resolution functions == the original functions on concrete strings",
+           k2_variant_check, targets=lambda: _k2_targets_fns()[:3], core=False, strength="structure",
+           perturb=["variant_differs"], choices=["target from a vocabulary", "function"]),
+    Kernel("K3", "generated pptx/docx/epub/odp packages through the public readers: bytes bit-exact, nothing extra, "
+                 "document order, numbers 1..n (also when a media read fails), content type, pixel size, unit "
+                 "attribution, unit views == document iterators",
+           k3_packages, targets=lambda: [r for _, r, _, _ in _k3_formats().values()], parts=_k3_parts,
+           strength="structure", core=False,
+           perturb=[("numbers_from_zero", {"format": "odp", "per_unit": 2}),
+                    ("size_swapped", {"format": "docx", "per_unit": 2})],
+           choices=["number of units (1..2)", "images per unit (0..2, thorough 0..3)", "media member present/missing",
+                    "relationship / manifest order reversed", "index of the failing media read"],
+           stubs=["ZipContext.read_bytes -> raises OSError at the chosen image read (fault parts only)"],
+           assumptions=["images are PNG/JPEG/GIF/BMP written by the harness with distinct pixel sizes; every anchor "
+                        "references its own media member (shared media are not generated: the property text leaves "
+                        "open whether they are returned once or per anchor)"],
+           outside=["xlsx, odt, ods, odg, pdf, rtf packages (no writer in the harness); external links",
+                    "bit-exactness of zipfile itself"],
+           timeout={"quick": 100, "thorough": 1100}),
+    Kernel("K3v", "unit views vs document iterators on content instances (pdf, pptx, xlsx, odp, ods): inclusion and, "
+                  "for these page/slide/sheet formats, equality as sequences",
+           k3_views, targets=lambda: [__import__("sharepoint2text.parsing.extractors.data_types", fromlist=["x"]).XlsxContent.iterate_units],
+           parts=lambda tier: [{"kind": k} for k in ("pdf", "pptx", "xlsx", "odp", "ods")],
+           strength="structure", core=False, perturb=[("drop_last_unit_image", {"kind": "pptx"})],
+           choices=["number of units 0..2", "tables per unit 0..2", "rows per table 0..2", "images per unit 0..2"]),
 ]
 
 META = {
